@@ -27,10 +27,10 @@ CHECKS = {
    technique="model-based property testing (Hypothesis histories) with crash points (image kept) from the history's trace; oracle over commands, reports and record marks",
    text="Histories with concurrency settings {0,1,2,3,255,1000} x announced limits {0,1,2,120,255}, up to 12 recipients incl. duplicates, TERM+restart and crashes: outstanding attempts per (message, channel, address) never exceed unmarked records, per-channel outstanding <= min(configured, announced), delivery numbers distinct/in range, nothing after TERM, exit 0 only when idle, exactly one final attempt per recipient in crash-free histories, every final report is reflected by a mark.",
    note="Marks are observed at quiescent points; crash images restricted to 'kept' (a lost mark legitimately causes a re-attempt)."),
- "C10": dict(cat="exploration", design="5/C10", engine="driven world (preprocessing only) + independent routing model",
+ "C10": dict(cat="exploration", design="5/C10", engine="driven world (preprocessing only) + in-process getcontrols()/rewrite()/senderadd() volume harness + independent routing model",
    technique="property-based testing (Hypothesis configurations and recipients) against a reference model of qmail-send.9/addresses.5",
    text="Generated locals/virtualdomains/percenthack/envnoathost files (comments, case, trailing blanks, all entry kinds) and 1-12 recipients with near misses are injected with the real qmail-queue and preprocessed by the real qmail-send; the records of local/<n> and remote/<n> (order, channel, spelling) and the VERP sender of every delivery command must equal the model; second phase rewrites the files, sends HUP and injects again.",
-   note="Duplicate control-file keys are outside the domain; multi-@ addresses on which the percent hack fires are only checked for conservation (slack). The in-process volume run of rewrite() named in the design is not built; C20's send target fuzzes rewrite() for memory safety only."),
+   note="Duplicate control-file keys are outside the domain; multi-@ addresses on which the percent hack fires are only checked for conservation (slack). A second part runs ~250k recipients per quick run through the real getcontrols()/rewrite()/senderadd() in-process (inproc/c10_rewrite.c) against the same model."),
  "C14": dict(cat="exploration", design="5/C14", engine="driven world + bounce parser",
    technique="model-based property testing (Hypothesis histories of failing recipients) with a structural parser of every daemon-queued notice",
    text="Failing recipients in generated combinations/orders (permanent, or temporary past queuelifetime), hostile failure texts (blank lines, forged '<victim>:' paragraphs, the copy marker, 8-bit, 12 kB), all sender forms, generated bounce* control files; the chain bounce -> double bounce -> discard runs through the real queue. Each notice is parsed: envelope, From/To, exactly one paragraph per failed recipient with the prepend removed and newlines mapped, text equal modulo documented squashing, marker, Return-Path, byte-identical original.",
